@@ -48,6 +48,11 @@ def gen_case(rng):
     weighted = rng.random() < 0.6
     n_resp = rng.choice([0, 1, 2, 5, 10, 20, 30, 40])
     survey = su.gen_survey(rng, vars_, n_resp, weighted)
+    # the strand's p(1 - p) cancels in 1 - p when p is within 2^-34 of 1 (float noise ~1e-6 relative): the
+    # mixed-scale regime is kept out of strands; the three-term slice formula is stable under it
+    regime = su.pick_regime(rng, weighted, p_each=0.2 if shape == "strand" else 0.08,
+                            allowed=("tiny", "small") if shape == "strand" else ("tiny", "mixed", "small"))
+    survey = su.apply_regime(rng, vars_, survey, regime)
     p_overlap = 0.08
     row_ins = col_ins = []
     rv = vars_[-2] if len(vars_) >= 2 else vars_[0]
@@ -64,7 +69,8 @@ def gen_case(rng):
         if rng.random() < 0.5:
             pairwise["only_larger"] = rng.random() < 0.5
     return {"vars": [v.to_json() for v in vars_], "survey": gen.survey_to_json(survey), "weighted": weighted,
-            "row_ins": row_ins, "col_ins": col_ins, "scale": su.pick_scale(rng, 0.12), "pairwise": pairwise}
+            "row_ins": row_ins, "col_ins": col_ins, "scale": su.pick_scale(rng, 0.12), "pairwise": pairwise,
+            "wregime": regime}
 
 
 def generate(ctx):
@@ -199,6 +205,8 @@ def evaluate(case, louts, ctx):
     tr = su.transforms_of(case["row_ins"], case["col_ins"], pairwise=case.get("pairwise"))
     if case.get("pairwise") is not None:
         ctx.count("cases_with_pairwise_settings")
+    if case.get("wregime"):
+        ctx.count("weight_regime:%s%s" % (case["wregime"], ".strand" if len(vars_) == 1 else ""))
     cube = Cube(resp, transforms=tr)
     key_parts = []
     nontrivial_ins = nontrivial_base = False
